@@ -74,7 +74,7 @@ def case(d):
     kind = d.weighted([(5, "prog"), (3, "soup")])
     mode = d.weighted([(3, "T1"), (3, "T2"), (2, "T1b"), (2, "both")])
     if kind == "prog":
-        p = family.member_of(d)
+        p = family.member_of(d, opts={"decorate": True})
         lex = [(t, k) for t, k in lexemes_of_program(p)]
         # inside the program model a multi-line block comment is several lines of one token: no splice inside it
         lex = _guard_comments(lex)
